@@ -81,33 +81,15 @@ Definition is_package (cfg : config) (root : list str) (t : node) (chain : list 
   exists kids, at_path t chain (Dir kids) /\ has_build_file cfg kids
                /\ forall pre suf, chain = pre ++ suf -> excluded_dir cfg (root ++ pre) = false.
 
-(* configurations the statement is about: "." is not a directory name one can blacklist, and the output
-   directory's name is not a BUILD file name *)
-Definition cfg_ok (cfg : config) : Prop :=
-  ~ In (s ".") (blacklist cfg) /\ ~ In (s "plz-out") (build_file_names cfg).
+(* the BUILD file names that FindAllBuildFiles must send for the directory with components `cs` and tree `t`:
+   the BUILD files of the directories below it (itself included) that no excluded directory separates from it *)
+Definition sent_spec (cfg : config) (cs : list str) (t : node) (f : str) : Prop :=
+  exists chain kids b k,
+    at_path t chain (Dir kids) /\ In (b, File k) kids /\ is_build_file cfg b = true
+    /\ (forall pre suf, chain = pre ++ suf -> excluded_dir cfg (cs ++ pre) = false)
+    /\ f = path_str (cs ++ chain ++ [b]).
+
+(* configurations the statement is about: "." is not a directory name one can blacklist *)
+Definition cfg_ok (cfg : config) : Prop := ~ In (s ".") (blacklist cfg).
 
 Definition valid_path (cs : list str) : Prop := Forall (fun c => valid_name c = true) cs.
-
-(* ---------------------------------------------------------------- the known defect class *)
-
-(* The walk callback returns filepath.SkipDir for a NON-directory that "looks excluded"; godirwalk then
-   abandons the rest of the directory.  file_skips: the entry with these components is such a file. *)
-Definition file_skips (cfg : config) (cs : list str) : bool :=
-  match last_comp cs with
-  | Some b => str_eqb b (s "plz-out")
-              || (negb (is_build_file cfg b) && mem_str (path_str cs) (experimental cfg))
-  | None => false
-  end
-  || blacklisted_comps cfg cs.
-
-(* some directory that the walk enters holds a plain file (not a symlink to a directory) that skips *)
-Fixpoint hazard (cfg : config) (cs : list str) (t : node) : bool :=
-  match t with
-  | File FReg => file_skips cfg cs
-  | File FLinkDir => false
-  | Dir kids => negb (excluded_dir cfg cs)
-                && existsb (fun nc => hazard cfg (cs ++ [fst nc]) (snd nc)) kids
-  end.
-
-Definition defect_class (cfg : config) (root : list str) (t : node) : option str :=
-  if hazard cfg root t then Some (s "file-named-like-excluded-dir-hides-later-siblings") else None.
